@@ -186,8 +186,18 @@ def gen_filters(g, cfg):
     cfg["include" if g.coin(0.45) else "exclude"] = sorted(set(filters))
 
 
+ANCHORS = ["BenchmarkComplete", "BenchmarkComplete", "TaskFinished", "JoinPointReached", "CompleteCurrentTask", "Drive", "StartWorker", "UpdateSamples", "PreparationComplete", "StartBenchmark"]
+
+
+def gen_anchor(g, f):
+    """place the fault right at a protocol event (the n-th message of a kind being sent) instead of at a time"""
+    f.pop("rel", None)
+    f["on"] = {"msg": g.pick(ANCHORS), "nth": g.pick([0, 0, 1, 2, 3, 5])}
+    f["at"] = g.pick([0.0, 0.0, 1e-4, 1e-3, 5e-3, 0.02])
+
+
 def gen_fault(g, cfg):
-    kinds = ["request-abort", "conn-fatal", "params-raise", "runner-raise", "store-raise", "prep-fail", "worker-kill", "interrupt"]
+    kinds = ["request-abort", "conn-fatal", "params-raise", "runner-raise", "store-raise", "rc-store-raise", "prep-fail", "worker-kill", "interrupt"]
     kind = g.pick(kinds)
     tasks = [t for _, _, t in leaf_tasks(cfg["schedule"]) if t["op"] in ("sim-op", "raw-request") and "sim" in t]
     f = {"kind": kind}
@@ -207,6 +217,8 @@ def gen_fault(g, cfg):
                 f["how"] = g.pick(["runtime", "key"])
     elif kind == "store-raise":
         f["at_add"] = g.pick([0, 1, 5, 20, 60])
+    elif kind == "rc-store-raise":
+        f["at_call"] = g.pick([0, 0, 1, 2, 3, 5])  # n-th batch of samples that race control adds to its store
     elif kind == "prep-fail":
         bulks = [t for _, _, t in leaf_tasks(cfg["schedule"]) if t["op"] == "bulk"]
         if not bulks:
@@ -216,10 +228,14 @@ def gen_fault(g, cfg):
     elif kind == "worker-kill":
         f["at"] = g.pick([0.0, 0.5, 1.1, 1.5, 2.5, 4.0, 8.0])  # seconds after load generation starts
         f["which"] = g.choose(8)
+        if g.coin(0.35):
+            gen_anchor(g, f)
     else:
         f["at"] = g.pick([0.1, 0.5, 2.0, 5.0, 12.0])
         if g.coin(0.6):
             f["rel"] = "start"
+        if g.coin(0.4):
+            gen_anchor(g, f)
     cfg["fault"] = f
 
 
@@ -282,7 +298,7 @@ class RaceHarness(Harness):
             "C07": "cases as C01 with short post-processing intervals, over-commit and executor pre-emption biased up, a share with down-sampling or a tiny sample queue; "
             "non-trivial = at least 2 workers or 2 rows and at least 10 samples; distinct = distinct history digests",
             "C09": "cases as C01 plus exactly one terminal fault (request error under on-error=abort, connection error outlasting transport retries, parameter source / runner "
-            "raising, metrics store raising during post-processing, failing track preparation, killed worker process, user interrupt) at a seeded position; a systematic "
+            "raising, metrics store raising during post-processing or at race control, failing track preparation, killed worker process, user interrupt) at a seeded position or anchored on the n-th protocol message of a kind; a systematic "
             "sweep places every kind at early/middle/late positions of a fixed small race; non-trivial = the fault fired; distinct = distinct history digests",
             "C11": "cases as C01 with names/types/tags from small alphabets and 1-3 include or exclude filters biased to match all tasks of a parallel element; step 1 compares "
             "the loaded schedule with a reference filter (direct comparison, not simulation), step 2 races the filtered track; non-trivial = the filter removed something "
@@ -381,6 +397,21 @@ class RaceHarness(Harness):
                 if rel:
                     c["fault"]["rel"] = rel
                 yield c
+        # faults anchored on protocol events: the user interrupts / a worker dies right when a message of a kind is sent
+        for msg, nths in (("BenchmarkComplete", (0,)), ("TaskFinished", (0, 1, 2)), ("JoinPointReached", (0, 2, 5)), ("Drive", (0, 3)), ("CompleteCurrentTask", (0,)), ("StartWorker", (0, 1))):
+            for nth in nths:
+                for delta in (0.0, 1e-3, 0.02):
+                    c = json.loads(json.dumps(base))
+                    c["fault"] = {"kind": "interrupt", "at": delta, "on": {"msg": msg, "nth": nth}}
+                    yield c
+                    if msg != "BenchmarkComplete":
+                        c = json.loads(json.dumps(base))
+                        c["fault"] = {"kind": "worker-kill", "at": delta, "which": nth, "on": {"msg": msg, "nth": nth}}
+                        yield c
+        for at in (0, 1, 2, 3, 4):
+            c = json.loads(json.dumps(base))
+            c["fault"] = {"kind": "rc-store-raise", "at_call": at}
+            yield c
 
     def simplify(self, prop, cfg):
         def cp():
@@ -591,8 +622,23 @@ class RaceHarness(Harness):
             if not fault:
                 return
             k = fault["kind"]
+            if "on" in fault:
+                seen_msgs = {"n": 0}
+
+                def on_send(src, dst, msg):
+                    if type(msg).__name__ != fault["on"]["msg"] or state.get("anchored"):
+                        return
+                    n = seen_msgs["n"]
+                    seen_msgs["n"] += 1
+                    if n == fault["on"]["nth"]:
+                        state["anchored"] = True
+                        state["anchor_fire"](system.clock.now)
+
+                system.on_send = on_send
             if k == "interrupt":
-                if fault.get("rel") == "start":
+                if "on" in fault:
+                    state["anchor_fire"] = lambda now: setattr(system, "interrupt_at", now + fault["at"])
+                elif fault.get("rel") == "start":
                     state["armed"] = lambda now: setattr(system, "interrupt_at", now + fault["at"])
                 else:
                     system.interrupt_at = fault["at"]
@@ -610,7 +656,25 @@ class RaceHarness(Harness):
                     state["kill_worker"] = c.name
                     system.kill(c)
 
-                state["armed"] = lambda now: system.call_at(now + fault["at"], kill)
+                if "on" in fault:
+                    state["anchor_fire"] = lambda now: system.call_at(now + fault["at"], kill)
+                else:
+                    state["armed"] = lambda now: system.call_at(now + fault["at"], kill)
+            elif k == "rc-store-raise":
+                orig_bulk_add = metrics.MetricsStore.bulk_add
+                state["orig_bulk_add"] = orig_bulk_add
+
+                def bulk_add(self_, docs):
+                    cur = system.current
+                    if cur is not None and cur.cls.__name__ == "BenchmarkActor":
+                        n = state["adds"]
+                        state["adds"] += 1
+                        if n == fault["at_call"]:
+                            fired["race_control_store_failure"] = 1
+                            raise RuntimeError("simulated metrics store failure at race control")
+                    return orig_bulk_add(self_, docs)
+
+                metrics.MetricsStore.bulk_add = bulk_add
             elif k == "prep-fail":
                 p = os.path.join(out.track_dir, f"docs-{fault['task']}.json")
                 if os.path.exists(p):
@@ -639,6 +703,8 @@ class RaceHarness(Harness):
             finally:
                 if "orig_add" in state:
                     metrics.InMemoryMetricsStore._add = state["orig_add"]
+                if "orig_bulk_add" in state:
+                    metrics.MetricsStore.bulk_add = state["orig_bulk_add"]
             system, simes = out.system, out.simes
             for kname, v in system.faults.items():
                 fired[kname] = fired.get(kname, 0) + v
